@@ -20,7 +20,7 @@ from props.common import (
 
 # private helpers the rules name; everything else (Filter::should_filter, FanoutX::from_xs, string builders ..) is
 # spliced into its callers before the rules run
-KEEP = ["prefix_key", "prefix_key_name", "Router::route", "route", "MetricKindMask::value", "value"]
+KEEP = ["prefix_key", "prefix_key_name", "MetricKindMask::value", "value"]
 TITLE = "C13 layers deliver exactly the transformed operations to exactly the right recorders."
 CONFIGS = ["test-profile", "util-layers"]
 L = "metrics_util::layers"
@@ -164,26 +164,35 @@ def run(ctx):
 
     # ---------------- C13.d router
     if layer_impls.get("Router"):
-        route = one_method(chk, "C13.d", u, f"{L}::router::Router", "route")
-        if route:
-            b = route.body
-            from facts import PredFlow
-            from props.common import opt_alts
+        from facts import PredFlow
+        from props.common import opt_alts
 
+        # Router's private `route` helper is spliced into the six Recorder methods; each is decided on its own
+        for name in RECORDER_METHODS:
+            route = layer_impls["Router"].get(name)
+            if not route:
+                continue
+            kind = name.split("_")[1]
+            b = route.body
             mt = calls_to(route, "MetricKindMask::matches")
             ga = calls_to(route, "Trie<K, V>::get_ancestor", "get_ancestor")
             lookups = [c for c in nonforeign_calls(route) if "radix_trie" in (c.resolved or "") and c.fn is route and not c.is_("TrieCommon::value", "value", "TrieCommon::key")]
-            ok = len(mt) == 1 and len(ga) == 1 and len(lookups) == 1
-            detail = f"trie lookups {[strip_generics(c.resolved).split('::')[-1] for c in lookups]}"
+            inner = [c for c in nonforeign_calls(route) if (c.t.get("trait") or "").endswith("recorder::Recorder")]
+            ok = len(mt) == 1 and len(ga) == 1 and len(lookups) == 1 and len(inner) == 1
+            detail = f"trie lookups {[strip_generics(c.resolved).split('::')[-1] for c in lookups]}, mask tests {len(mt)}, inner calls {len(inner)}"
             if ok:
                 am = arg_syms(mt[0])
                 ag = arg_syms(ga[0])
-                ok = self_field(am[0], "global_mask") and is_param(am[1], 1) and is_param(ag[0], 3) and is_param(ag[1], 2)
+                kind_ok = kind.capitalize() in repr(strip_sym(am[1]))
+                trie_ok = f"'{kind}_routes'" in repr(ag[0]) and not any(f"'{k}_routes'" in repr(ag[0]) for k in ("counter", "gauge", "histogram") if k != kind)
+                ok = self_field(am[0], "global_mask") and kind_ok and trie_ok and name_of(sym_through(ag[1], "Deref::deref", "AsRef::as_ref", "String::as_str"), 1)
+                detail = f"mask tested for the method's kind={kind_ok}, own kind's trie={trie_ok}"
                 pf = PredFlow(route, lambda subj, v: None, lambda x: ("P", "N") if sym_is_call(x, "MetricKindMask::matches") else None)
-                ok = ok and pf.at(ga[0].bb) == "P"
-                detail = "the trie is consulted without the global mask admitting the kind" if not ok else detail
-                # what route() may return: the default recorder, or targets[<value found by get_ancestor>]
-                alts = [x for x, _ in opt_alts(u, Sym(route).local(0))]
+                if ok and pf.at(ga[0].bb) != "P":
+                    ok = False
+                    detail = "the trie is consulted without the global mask admitting the kind"
+                # the recorder the call is forwarded to: the default one, or targets[<value found by get_ancestor>]
+                alts = [x for x, _ in opt_alts(u, arg_syms(inner[0])[0])]
                 kinds_ = set()
                 for x in alts:
                     txt = repr(x)
@@ -195,8 +204,8 @@ def run(ctx):
                         kinds_.add("other:" + sym_str(x)[:60])
                 if ok and kinds_ != {"default", "target"}:
                     ok = False
-                    detail = f"route() can return {sorted(kinds_)}"
-            chk.ob("C13.d", route.path, ok, "default unless global_mask.matches(kind); else targets[get_ancestor(key).value] else default" if ok else f"route() is not mask-gated longest-prefix lookup with default fallback ({detail})", route.loc())
+                    detail = f"the call can be forwarded to {sorted(kinds_)}"
+            chk.ob("C13.d", f"{route.path} [routing]", ok, "default unless global_mask.matches(kind); else targets[get_ancestor(name).value] else default" if ok else f"{name} is not routed by mask-gated longest-prefix lookup with default fallback ({detail})", route.loc())
         ar = one_method(chk, "C13.d", u, f"{L}::router::RouterBuilder", "add_route")
         if ar:
             b = ar.body
